@@ -278,7 +278,7 @@ type C18Case struct {
 	Seed  uint64 `json:"seed"`
 	Index int    `json:"index"`
 	Depth int    `json:"depth"`
-	Fixed string `json:"fixed,omitempty"` // one of the hand-written types
+	Fixed string `json:"fixed,omitempty"`             // one of the hand-written types
 	Opts  string `json:"generator_options,omitempty"` // "" (default) | all-exported-fields | export-components | export-components-and-top-level | customizer-noop
 }
 type C18Obs struct {
@@ -532,6 +532,41 @@ func runC18(c *C18Case) (C18Obs, string) {
 			o.Problems = append(o.Problems, "encoding-rejected")
 		}
 		vals = append(vals, fmt.Sprintf("(%s, %s)", coqJSON(normJSON(dec)), coqBool(verr == nil)))
+	}
+	if c.Fixed != "" {
+		// the same schema and component map used in memory: references resolved in place, no writing and reading back
+		schemas2 := openapi3.Schemas{}
+		var ref2 *openapi3.SchemaRef
+		var err2 error
+		if p := catchPanic(func() { ref2, err2 = openapi3gen.NewSchemaRefForValue(zero, schemas2, gopts...) }); p == nil && err2 == nil && ref2 != nil {
+			doc2 := &openapi3.T{OpenAPI: "3.0.3", Info: &openapi3.Info{Title: "t", Version: "1"}, Paths: openapi3.NewPaths(), Components: &openapi3.Components{Schemas: schemas2}}
+			schemas2["Root__"] = ref2
+			var rerr error
+			if p := catchPanic(func() { rerr = openapi3.NewLoader().ResolveRefsIn(doc2, nil) }); p != nil || rerr != nil {
+				o.Problems = append(o.Problems, "references-do-not-resolve-in-memory")
+			} else if ref2.Value != nil {
+				already := map[string]bool{}
+				for _, r := range o.Rejected {
+					already[r] = true
+				}
+				for _, v := range values {
+					b, merr := json.Marshal(v)
+					if merr != nil || already[string(b)] {
+						continue
+					}
+					var dec any
+					json.Unmarshal(b, &dec)
+					var verr error
+					if p := catchPanic(func() { verr = ref2.Value.VisitJSON(dec) }); p != nil {
+						verr = fmt.Errorf("panic: %v", p)
+					}
+					if verr != nil && dec != nil {
+						o.Rejected = append(o.Rejected, "in memory: "+string(b))
+						o.Problems = append(o.Problems, "encoding-rejected-in-memory")
+					}
+				}
+			}
+		}
 	}
 	o.Problems = dedup(o.Problems)
 	if c.Fixed != "" {
